@@ -16,6 +16,11 @@ import NavisModel.Drv.C13
 import NavisModel.Drv.C17
 import NavisModel.Drv.C18
 import NavisModel.Drv.ConnSub
+import NavisModel.Drv.C12Ext
+import NavisModel.Drv.C10Ext
+import NavisModel.Drv.C05Ext
+import NavisModel.Drv.C04Ext
+import NavisModel.Drv.C01Ext
 /-! `navisdrv`: one request per line on stdin (`<prop>.<cmd> <payload>`), one answer per line on stdout. -/
 open Navis
 
@@ -39,6 +44,11 @@ def handle (head rest : String) : Option String :=
   | ["c17", cmd] => Drv.C17.run cmd rest
   | ["c18", cmd] => Drv.C18.run cmd rest
   | ["cs", cmd] => Drv.ConnSub.run cmd rest
+  | ["c01x", cmd] => Drv.C01Ext.run cmd rest
+  | ["c04x", cmd] => Drv.C04Ext.run cmd rest
+  | ["c05x", cmd] => Drv.C05Ext.run cmd rest
+  | ["c10x", cmd] => Drv.C10Ext.run cmd rest
+  | ["c12x", cmd] => Drv.C12Ext.run cmd rest
   | ["ping"] => some "pong"
   | _ => none
 
